@@ -12,7 +12,7 @@
    5. the method-prefix defect: witness.
    6. the C44 checklist machine on the same tree decides the same. *)
 Require Import SquidV.Bytes SquidV.SplayModel SquidV.TokModel SquidV.IntrangeModel SquidV.IntrangeProofs SquidV.AccessModel.
-Require SquidV.AcldomModel SquidV.AclipModel SquidV.AcldomProofs SquidV.AclipProofs.
+Require SquidV.AcldomModel SquidV.AclipModel SquidV.AcldomProofs SquidV.AclipProofs SquidV.AcltreeModel SquidV.AcltreeProofs.
 Require Import SquidV.gen.AccessMeth_gen.
 Require Import Lia ZifyBool ZifyN.
 Local Open Scope N_scope.
@@ -1064,3 +1064,218 @@ Lemma ex_run : access_run ex_cfg ex_env
   [ex_req 2130706434 b_GET 80; ex_req 2130706437 b_GET 80; ex_req 2130706437 [72; 69; 65; 68] 8001; ex_req 2130706441 [80; 79; 83; 84] 9000]
   = Some [OForward; ODeny403; OForward; ODeny403].
 Proof. vm_compute. reflexivity. Qed.
+
+(* ================================================================== *)
+(* 6. composition with C44: the ACLChecklist machine on the same tree  *)
+Module TM := SquidV.AcltreeModel.
+Module TP := SquidV.AcltreeProofs.
+
+(* The Acl::Tree of the rule list. Every literal occurrence k (counted from 1 over the whole list) becomes
+   its own scripted leaf 3k, so that it may go asynchronous on its own; '!' is the NotNode 3k+1 above it;
+   a rule is the AndNode 3k+2 of its first literal; the tree itself is node 0. *)
+Fixpoint num_terms (k : N) (terms : list (bool * bytes)) : list TM.node :=
+  match terms with
+  | [] => []
+  | (neg, _) :: r =>
+      (if neg then TM.Inner (3 * k + 1) TM.KNot [TM.Leaf (3 * k)] else TM.Leaf (3 * k)) :: num_terms (k + 1) r
+  end.
+Fixpoint num_rules (k : N) (rules : list rule) : list TM.node :=
+  match rules with
+  | [] => []
+  | (_, ts) :: r => TM.Inner (3 * k + 2) TM.KAnd (num_terms k ts) :: num_rules (k + lenN ts) r
+  end.
+Definition act_of (r : rule) : TM.answer := TM.action (if fst r then TM.Allowed else TM.Denied) 0.
+Definition tree_of (rules : list rule) : TM.tree := TM.mkTree 0 (num_rules 1 rules) (map act_of rules).
+
+(* what the literal answers in the state s (a fresh checklist: no cached reverse name) *)
+Definition lit_truth (e : env) (s : cstate) (rq : request) (name : bytes) : bool :=
+  match find_acl name (c_acls s) with
+  | Some a => fst (fst (leaf_eval e rq None a))
+  | None => false
+  end.
+
+(* the scripts: leaf 3k answers lit_truth after [sched (3k)] lookups that really go asynchronous *)
+Fixpoint scr_terms (e : env) (s : cstate) (rq : request) (sched : N -> nat) (k : N) (terms : list (bool * bytes))
+  : list (N * TM.lscript) :=
+  match terms with
+  | [] => []
+  | (_, name) :: r =>
+      (3 * k, TM.mkScript (lit_truth e s rq name) false (repeat TM.Real (sched (3 * k)))) :: scr_terms e s rq sched (k + 1) r
+  end.
+Fixpoint scr_rules (e : env) (s : cstate) (rq : request) (sched : N -> nat) (k : N) (rules : list rule)
+  : list (N * TM.lscript) :=
+  match rules with
+  | [] => []
+  | (_, ts) :: r => scr_terms e s rq sched k ts ++ scr_rules e s rq sched (k + lenN ts) r
+  end.
+Definition scripts_of (e : env) (s : cstate) (rq : request) (sched : N -> nat) : list (N * TM.lscript) :=
+  scr_rules e s rq sched 1 (c_rules s).
+
+(* ---- leaf ids are distinct ---- *)
+Fixpoint ids_terms (k : N) (terms : list (bool * bytes)) : list N :=
+  match terms with [] => [] | _ :: r => 3 * k :: ids_terms (k + 1) r end.
+Fixpoint ids_rules (k : N) (rules : list rule) : list N :=
+  match rules with [] => [] | (_, ts) :: r => ids_terms k ts ++ ids_rules (k + lenN ts) r end.
+
+Lemma leaf_ids_terms terms : forall k, flat_map TM.leaf_ids (num_terms k terms) = ids_terms k terms.
+Proof.
+  induction terms as [|[neg name] r IH]; intros k; cbn [num_terms ids_terms flat_map]; [reflexivity|].
+  rewrite IH. destruct neg; reflexivity.
+Qed.
+Lemma leaf_ids_rules rules : forall k, flat_map TM.leaf_ids (num_rules k rules) = ids_rules k rules.
+Proof.
+  induction rules as [|[al ts] r IH]; intros k; cbn [num_rules ids_rules flat_map]; [reflexivity|].
+  rewrite IH. cbn [TM.leaf_ids]. rewrite leaf_ids_terms. reflexivity.
+Qed.
+
+Lemma ids_terms_bounds terms : forall k x, In x (ids_terms k terms) -> 3 * k <= x < 3 * (k + lenN terms).
+Proof.
+  induction terms as [|t r IH]; intros k x; cbn [ids_terms lenN In]; [intros []|].
+  intros [<-|H]; [lia|]. apply IH in H. lia.
+Qed.
+Lemma ids_rules_lower rules : forall k x, In x (ids_rules k rules) -> 3 * k <= x.
+Proof.
+  induction rules as [|[al ts] r IH]; intros k x; cbn [ids_rules In]; [intros []|].
+  intros H. apply in_app_or in H. destruct H as [H|H]; [apply ids_terms_bounds in H; lia| apply IH in H; lia].
+Qed.
+Lemma NoDup_app' {A} (a b : list A) : NoDup a -> NoDup b -> (forall x, In x a -> In x b -> False) -> NoDup (a ++ b).
+Proof.
+  induction a as [|x a IH]; intros Ha Hb Hd; cbn [app]; [exact Hb|].
+  inversion Ha as [|? ? Hx Ha']; subst. constructor.
+  - intros H. apply in_app_or in H. destruct H as [H|H]; [contradiction| exact (Hd x (or_introl eq_refl) H)].
+  - apply IH; [exact Ha'| exact Hb|]. intros y Hy1 Hy2. exact (Hd y (or_intror Hy1) Hy2).
+Qed.
+Lemma ids_terms_nodup terms : forall k, NoDup (ids_terms k terms).
+Proof.
+  induction terms as [|t r IH]; intros k; cbn [ids_terms]; constructor; [|apply IH].
+  intros H. apply ids_terms_bounds in H. lia.
+Qed.
+Lemma ids_rules_nodup rules : forall k, NoDup (ids_rules k rules).
+Proof.
+  induction rules as [|[al ts] r IH]; intros k; cbn [ids_rules]; [constructor|].
+  apply NoDup_app'; [apply ids_terms_nodup| apply IH|].
+  intros x H1 H2. apply ids_terms_bounds in H1. apply ids_rules_lower in H2. lia.
+Qed.
+
+(* ---- the table ---- *)
+Lemma lookup_skip A : forall B i, (forall p, In p A -> fst p <> i) ->
+  TM.lookup_script (A ++ B) i = TM.lookup_script B i.
+Proof.
+  induction A as [|[j sc] A IH]; intros B i H; cbn [app TM.lookup_script]; [reflexivity|].
+  destruct (N.eqb_spec j i) as [E|E]; [exfalso; exact (H (j, sc) (or_introl eq_refl) E)|].
+  apply IH. intros p Hp. exact (H p (or_intror Hp)).
+Qed.
+
+Lemma scr_terms_keys e s rq sched terms : forall k p, In p (scr_terms e s rq sched k terms) ->
+  3 * k <= fst p < 3 * (k + lenN terms).
+Proof.
+  induction terms as [|[neg name] r IH]; intros k p; cbn [scr_terms lenN In]; [intros []|].
+  intros [<-|H]; [cbn [fst]; lia|]. apply IH in H. lia.
+Qed.
+
+Lemma all_real_lookup tbl : Forall (fun p => forallb TM.is_real (TM.attempts (snd p)) = true) tbl ->
+  forall i, forallb TM.is_real (TM.attempts (TM.lookup_script tbl i)) = true.
+Proof.
+  induction tbl as [|[j sc] r IH]; intros H i; cbn [TM.lookup_script]; [reflexivity|].
+  inversion H as [|? ? H1 H2]; subst. destruct (j =? i); [exact H1| exact (IH H2 i)].
+Qed.
+Lemma repeat_real n : forallb TM.is_real (repeat TM.Real n) = true.
+Proof. induction n as [|n IH]; [reflexivity| exact IH]. Qed.
+Lemma scr_terms_real e s rq sched terms : forall k,
+  Forall (fun p => forallb TM.is_real (TM.attempts (snd p)) = true) (scr_terms e s rq sched k terms).
+Proof.
+  induction terms as [|[neg name] r IH]; intros k; cbn [scr_terms]; constructor; [apply repeat_real| apply IH].
+Qed.
+Lemma scr_rules_real e s rq sched rules : forall k,
+  Forall (fun p => forallb TM.is_real (TM.attempts (snd p)) = true) (scr_rules e s rq sched k rules).
+Proof.
+  induction rules as [|[al ts] r IH]; intros k; cbn [scr_rules]; [constructor|].
+  apply Forall_app. split; [apply scr_terms_real| apply IH].
+Qed.
+
+(* ---- evaluation of the numbered tree under the table's truth values ---- *)
+Definition lit_holds_b (e : env) (s : cstate) (rq : request) (t : bool * bytes) : bool :=
+  xorb (fst t) (lit_truth e s rq (snd t)).
+Definition rule_holds_b (e : env) (s : cstate) (rq : request) (ts : list (bool * bytes)) : bool :=
+  forallb (lit_holds_b e s rq) ts.
+
+Section Eval.
+Variables (e : env) (s : cstate) (rq : request) (sched : N -> nat).
+Variable T : list (N * TM.lscript).
+Let v : N -> bool := fun i => TM.truth (TM.lookup_script T i).
+
+Lemma terms_eval terms : forall k P S,
+  (forall p, In p P -> fst p < 3 * k) -> T = P ++ scr_terms e s rq sched k terms ++ S ->
+  forallb (TM.eval v) (num_terms k terms) = rule_holds_b e s rq terms.
+Proof.
+  induction terms as [|[neg name] r IH]; intros k P S HP HT; cbn [num_terms rule_holds_b forallb]; [reflexivity|].
+  assert (Hv : v (3 * k) = lit_truth e s rq name).
+  { unfold v. rewrite HT, lookup_skip by (intros p Hp; apply HP in Hp; lia).
+    cbn [scr_terms app TM.lookup_script]. rewrite N.eqb_refl. reflexivity. }
+  assert (Hrest : forallb (TM.eval v) (num_terms (k + 1) r) = rule_holds_b e s rq r).
+  { apply (IH (k + 1) (P ++ [(3 * k, TM.mkScript (lit_truth e s rq name) false (repeat TM.Real (sched (3 * k))))]) S).
+    - intros p Hp. apply in_app_or in Hp. destruct Hp as [Hp|[<-|[]]]; [apply HP in Hp; lia| cbn [fst]; lia].
+    - rewrite HT. cbn [scr_terms]. rewrite <- !app_assoc. reflexivity. }
+  unfold rule_holds_b in Hrest. rewrite Hrest. f_equal. unfold lit_holds_b. cbn [fst snd].
+  destruct neg; cbn [TM.eval xorb]; rewrite Hv; reflexivity.
+Qed.
+
+(* the index of the first rule that applies, as first_from counts it *)
+Fixpoint first_pos (idx : N) (rules : list rule) : option N :=
+  match rules with
+  | [] => None
+  | (_, ts) :: r => if rule_holds_b e s rq ts then Some idx else first_pos (idx + 1) r
+  end.
+
+Lemma rules_eval rules : forall k idx P S,
+  (forall p, In p P -> fst p < 3 * k) -> T = P ++ scr_rules e s rq sched k rules ++ S ->
+  TM.first_from v (fun _ => false) idx (num_rules k rules) = first_pos idx rules.
+Proof.
+  induction rules as [|[al ts] r IH]; intros k idx P S HP HT; cbn [num_rules TM.first_from first_pos]; [reflexivity|].
+  cbn [negb andb TM.eval].
+  rewrite (terms_eval ts k P (scr_rules e s rq sched (k + lenN ts) r ++ S) HP
+             ltac:(rewrite HT; cbn [scr_rules]; rewrite <- !app_assoc; reflexivity)).
+  destruct (rule_holds_b e s rq ts); [reflexivity|].
+  apply (IH (k + lenN ts) (idx + 1) (P ++ scr_terms e s rq sched k ts) S).
+  - intros p Hp. apply in_app_or in Hp. destruct Hp as [Hp|Hp]; [apply HP in Hp; lia| apply scr_terms_keys in Hp; lia].
+  - rewrite HT. cbn [scr_rules]. rewrite <- !app_assoc. reflexivity.
+Qed.
+End Eval.
+
+(* first match, computed *)
+Fixpoint fm_bool (hb : list (bool * bytes) -> bool) (rules : list rule) (dflt : bool) : bool :=
+  match rules with
+  | [] => dflt
+  | (allow, ts) :: r => if hb ts then allow else fm_bool hb r dflt
+  end.
+
+Lemma fm_bool_allows hb holds rules dflt :
+  (forall r, In r rules -> (hb (snd r) = true <-> holds (snd r))) ->
+  (fm_bool hb rules dflt = true <-> fm_allows holds rules dflt).
+Proof.
+  induction rules as [|[al ts] r IH]; intros H; cbn [fm_bool fm_allows]; [reflexivity|].
+  pose proof (H (al, ts) (or_introl eq_refl)) as Hh. cbn [snd] in Hh.
+  specialize (IH (fun x Hx => H x (or_intror Hx))).
+  destruct (hb ts) eqn:E.
+  - split; [intros ->; left; split; [apply Hh; reflexivity| reflexivity]| intros [[_ X]|[N _]]; [exact X| exfalso; apply N, Hh; reflexivity]].
+  - rewrite IH. split; [intros F; right; split; [intros X; apply Hh in X; discriminate| exact F]|
+                        intros [[X _]|[_ F]]; [apply Hh in X; discriminate| exact F]].
+Qed.
+
+Lemma first_pos_action e s rq rules : forall idx pre, lenN pre = idx ->
+  match first_pos e s rq idx rules with
+  | Some pos => exists r, nthN pos (pre ++ map act_of rules) = Some (act_of r) /\
+                  forall d, fm_bool (rule_holds_b e s rq) rules d = fst r
+  | None => forall d, fm_bool (rule_holds_b e s rq) rules d = d
+  end.
+Proof.
+  induction rules as [|[al ts] r IH]; intros idx pre Hl; cbn [first_pos fm_bool]; [reflexivity|].
+  destruct (rule_holds_b e s rq ts) eqn:E.
+  - exists (al, ts). split; [|reflexivity]. subst idx. clear. induction pre as [|x pre IHp]; cbn [lenN app map].
+    + reflexivity.
+    + cbn [nthN]. destruct (lenN pre + 1) eqn:En; [lia|]. rewrite <- En.
+      replace (N.pred (lenN pre + 1)) with (lenN pre) by lia. exact IHp.
+  - specialize (IH (idx + 1) (pre ++ [act_of (al, ts)]) ltac:(rewrite lenN_app; cbn [lenN]; lia)).
+    destruct (first_pos e s rq (idx + 1) r) as [pos|]; [|exact IH].
+    destruct IH as (r0 & Hn & Hf). exists r0. split; [|exact Hf]. rewrite <- app_assoc in Hn. exact Hn.
+Qed.
